@@ -51,7 +51,7 @@ class Builtin(object):
 BUILTIN_NAMES = ['len', 'max', 'min', 'sum', 'any', 'all', 'abs', 'int', 'str', 'bool', 'isinstance', 'issubclass',
                  'range', 'xrange', 'enumerate', 'zip', 'reversed', 'list', 'tuple', 'set', 'dict', 'sorted', 'map',
                  'getattr', 'setattr', 'hasattr', 'delattr', 'next', 'iter', 'divmod', 'type', 'repr', 'super',
-                 'bytes', 'float', 'print', 'classmethod', 'staticmethod', 'property', 'object', 'filter', 'islice']
+                 'bytes', 'float', 'print', 'classmethod', 'staticmethod', 'property', 'object', 'filter', 'islice', 'slice']
 EXC_NAMES = ['Exception', 'ValueError', 'TypeError', 'KeyError', 'IndexError', 'AttributeError', 'AssertionError',
              'StopIteration', 'NotImplementedError', 'ZeroDivisionError', 'OverflowError', 'RuntimeError', 'LookupError']
 
@@ -97,6 +97,16 @@ class Interp(Engine):
                     env.set(t.id, val)
         elif isinstance(stmt, (ast.Import, ast.ImportFrom)):
             self._import(module, env, stmt)
+        elif isinstance(stmt, ast.If):
+            # module-level version switches (six.py): `if sys.version < '3'` -- the Python 3 arm is the one that runs
+            src = ast.get_source_segment(module.source, stmt.test) or ''
+            if 'sys.version' in src:
+                branch = stmt.orelse if '<' in src else stmt.body
+                for s2 in branch:
+                    try:
+                        self._module_stmt(module, env, s2)
+                    except (OutOfSubset, KeyError, PyRaise, TypeError, AttributeError):
+                        continue
 
     def _import(self, module, env, stmt):
         # relative imports inside the repository packages are resolved to Module envs lazily
@@ -633,11 +643,21 @@ class Interp(Engine):
             hi_t = self.clamp(hi, n, n)
             ln = z3.If(hi_t > lo_t, hi_t - lo_t, z3.IntVal(0))
             return SSeq(ln, lambda i, lo_t=lo_t: obj.elem(lo_t + i), obj.name + '[..]')
+        hook = self.hooks.get('slice')
+        if hook:
+            r = hook(self, obj, lo, hi)
+            if r is not NotImplemented:
+                return r
         raise OutOfSubset('slice of %r' % (obj,))
 
     def clamp(self, v, n, default):
         if v is None:
             return default if z3.is_expr(default) else z3.IntVal(default)
+        if isinstance(v, SOpt):       # a slice bound may be None
+            d = default if z3.is_expr(default) else z3.IntVal(default)
+            x = v.val
+            x = z3.If(x < 0, x + n, x)
+            return z3.If(v.isnone, d, z3.If(x < 0, z3.IntVal(0), z3.If(x > n, n, x)))
         x = self.as_int(v)
         x = z3.If(x < 0, x + n, x)
         return z3.If(x < 0, z3.IntVal(0), z3.If(x > n, n, x))
@@ -659,6 +679,7 @@ class Interp(Engine):
                         return self.eval(node.elt, e2)
                     finally:
                         self.pure -= 1
+                self.map_effects(it.length, elem)
                 return SSeq(it.length, elem, 'map(%s)' % it.name)
         return list(self.comprehension(node, env))
 
@@ -723,6 +744,22 @@ class Interp(Engine):
             if r is not NotImplemented:
                 return r
         raise OutOfSubset('iteration over %r' % (it,))
+
+    def map_effects(self, n, elem):
+        """an eager element-wise map over a sequence of symbolic length: a callee contract invoked in the
+        (pure) element evaluation may declare `may raise E when cond` by appending (E, cond) to
+        self.path.may_raise; the map then raises E iff some element satisfies cond (fork), and otherwise
+        every element is known not to"""
+        j = self.fresh('j')
+        self.path.may_raise = []
+        self.under(z3.And(0 <= j, j < n), lambda: elem(j))
+        effects, self.path.may_raise = self.path.may_raise, []
+        for exc, cond_j in effects:
+            some = z3.Exists([j], z3.And(0 <= j, j < n, cond_j)) if not isinstance(cond_j, bool) else z3.And(n > 0, cond_j)
+            if self.choose(2) == 1:
+                self.assume(some)
+                raise PyRaise(exc, ('element rejected',))
+            self.assume(z3.Not(some))
 
     def gencall_as_sseq(self, gc):
         """a generator function of the shape `for X in <seq>: yield <expr>` called on a sequence of
